@@ -50,7 +50,7 @@ Fixpoint dec_aux (fuel : nat) (n : N) (acc : str) : str :=
            else dec_aux f (n / 10) ((48 + n mod 10) :: acc)
   end.
 
-Definition dec_N (n : N) : str := dec_aux (S (N.size_nat n)) n [].
+Definition dec_N (n : N) : str := dec_aux (S (N.to_nat (N.log2 n))) n [].
 
 Definition dec_Z (z : Z) : str :=
   if (z <? 0)%Z then 45 :: dec_N (Z.abs_N z) else dec_N (Z.abs_N z).
@@ -247,20 +247,20 @@ Definition two63 : N := 9223372036854775808.
 (* strconv.ParseInt(s, base, 64) with an explicit base (no underscores, no
    prefix): None = any error (syntax or range) *)
 Definition go_parse_int (base : N) (s : str) : option Z :=
-  let '(neg, body) :=
-    match s with
-    | 45 :: r => (true, r)
-    | 43 :: r => (false, r)
-    | _ => (false, s)
-    end in
-  match body with
+  match s with
   | [] => None
-  | _ => match parse_unsigned base 0 body with
-         | None => None
-         | Some u =>
-             if neg then (if u <=? two63 then Some (- Z.of_N u)%Z else None)
-             else (if u <? two63 then Some (Z.of_N u) else None)
-         end
+  | c :: r =>
+      let neg := c =? 45 in
+      let body := if neg || (c =? 43) then r else s in
+      match body with
+      | [] => None
+      | _ => match parse_unsigned base 0 body with
+             | None => None
+             | Some u =>
+                 if neg then (if u <=? two63 then Some (- Z.of_N u)%Z else None)
+                 else (if u <? two63 then Some (Z.of_N u) else None)
+             end
+      end
   end.
 
 (* lib.go parseInt64 *)
@@ -284,14 +284,93 @@ Definition truthy (v : str) : bool :=
   eq_fold v [121] || eq_fold v [121; 101; 115] || eq_fold v [111; 110]
   || eq_fold v [116; 114; 117; 101].
 
+(* strconv.ParseFloat, syntax only: does the text denote a number (decimal
+   form, underscores as Go allows them)?  special() accepts inf/infinity/nan,
+   which goccy then refuses (unsupported value), so they count as errors too.
+   None: hexadecimal float syntax, not modelled. *)
+Fixpoint scan_mant (s : str) (sawdot sawdig us : bool) : str * bool * bool :=
+  match s with
+  | [] => ([], sawdig, us)
+  | c :: r =>
+      if c =? 95 then scan_mant r sawdot sawdig true
+      else if c =? 46 then (if sawdot then (s, sawdig, us) else scan_mant r true sawdig us)
+      else if is_digit c then scan_mant r sawdot true us
+      else (s, sawdig, us)
+  end.
+
+Fixpoint scan_expdigits (s : str) (us : bool) : str * bool :=
+  match s with
+  | [] => ([], us)
+  | c :: r => if c =? 95 then scan_expdigits r true
+              else if is_digit c then scan_expdigits r us
+              else (s, us)
+  end.
+
+(* underscoreOK after the sign, decimal: saw = 0 start, 1 digit, 2 underscore, 3 other *)
+Fixpoint us_ok (saw : N) (s : str) : bool :=
+  match s with
+  | [] => negb (saw =? 2)
+  | c :: r =>
+      if is_digit c then us_ok 1 r
+      else if c =? 95 then (if saw =? 1 then us_ok 2 r else false)
+      else if saw =? 2 then false
+      else us_ok 3 r
+  end.
+
+Definition strip_sign (s : str) : str :=
+  match s with c :: r => if (c =? 43) || (c =? 45) then r else s | [] => [] end.
+
+Definition go_float_numeric (s : str) : option bool :=
+  let body := strip_sign s in
+  match body with
+  | [] => Some false
+  | _ =>
+      if (is_prefix [48; 120] body || is_prefix [48; 88] body) && (2 <? N.of_nat (length body)) then None else
+      let '(r1, sawdig, us1) := scan_mant body false false false in
+      if negb sawdig then Some false else
+      match r1 with
+      | [] => Some (if us1 then us_ok 0 body else true)
+      | c :: r2 =>
+          if lower c =? 101 then
+            let r3 := strip_sign r2 in
+            match r3 with
+            | d :: _ =>
+                if is_digit d then
+                  let '(r4, us2) := scan_expdigits r3 us1 in
+                  match r4 with
+                  | [] => Some (if us2 then us_ok 0 body else true)
+                  | _ => Some false
+                  end
+                else Some false
+            | [] => Some false
+            end
+          else Some false
+      end
+  end.
+
+(* !!float scalar: ParseFloat, then goccy's float printing [ff] (opaque text or
+   an error such as out of range) *)
+Definition float_token (ff : str -> res str) (value : str) : res jvalue :=
+  match go_float_numeric value with
+  | Some true => match ff value with Ok t => Ok (JFloat t) | Err e => Err e end
+  | Some false => Err EFloat
+  | None => Err EUnmodelled
+  end.
+
+(* the non-finite floats of the YAML core schema *)
+Definition yaml_nonfinite : list str :=
+  [ [46;105;110;102]; [46;73;110;102]; [46;73;78;70];
+    [45;46;105;110;102]; [45;46;73;110;102]; [45;46;73;78;70];
+    [43;46;105;110;102]; [43;46;73;110;102]; [43;46;73;78;70];
+    [46;110;97;110]; [46;78;97;78]; [46;78;65;78] ].
+
 (* GetValueRep.  [ff]: ParseFloat followed by goccy's float printing, as a
    parameter (text of the token, or an error). *)
 Definition scalar_rep (ff : str -> res str) (tag value : str) : res jvalue :=
   if is_prefix [33; 33] tag then
     if str_eqb tag t_int then
       match parse_int64 value with Some z => Ok (JInt z) | None => Err EInt end
-    else if str_eqb tag t_float then
-      match ff value with Ok t => Ok (JFloat t) | Err e => Err e end
+    else if str_eqb tag t_float then float_token ff value
     else if str_eqb tag t_bool then Ok (JBool (truthy value))
     else if str_eqb tag t_null then Ok JNull
     else Ok (JStr value)
@@ -301,11 +380,15 @@ Definition scalar_rep (ff : str -> res str) (tag value : str) : res jvalue :=
     | _ => Err EUnmodelled              (* guessTagFromCustomType re-parses the text as YAML *)
     end.
 
-Fixpoint mapM {A B : Type} (f : A -> res B) (l : list A) : res (list B) :=
-  match l with
-  | [] => Ok []
-  | x :: xs => bind (f x) (fun v => bind (mapM f xs) (fun vs => Ok (v :: vs)))
-  end.
+Definition mapM {A B : Type} (f : A -> res B) : list A -> res (list B) :=
+  fix go (l : list A) : res (list B) :=
+    match l with
+    | [] => Ok []
+    | x :: xs => match f x with
+                 | Ok v => match go xs with Ok vs => Ok (v :: vs) | Err e => Err e end
+                 | Err e => Err e
+                 end
+    end.
 
 (* MarshalJSON *)
 Fixpoint to_json (ff : str -> res str) (n : node) : res jvalue :=
@@ -338,20 +421,30 @@ Definition lt_scaled (num den : N) (l : Z) : bool :=
   if (0 <=? l)%Z then num <? den * pow2 (Z.to_N l)
   else num * pow2 (Z.to_N (- l)) <? den.
 
+(* exponent of the unit in the last place: floor(log2(num/den)) - 52, not below -1074 *)
+Definition f64_exp (num den : N) : Z :=
+  let l := (Z.of_N (N.log2 num) - Z.of_N (N.log2 den))%Z in
+  let fl := if lt_scaled num den l then (l - 1)%Z else l in
+  Z.max (fl - 52) (-1074).
+
+(* num/den / 2^e as a fraction *)
+Definition f64_scaled (num den : N) (e : Z) : N * N :=
+  if (0 <=? e)%Z then (num, den * pow2 (Z.to_N e)) else (num * pow2 (Z.to_N (- e)), den).
+
+Definition round_half_even (n d : N) : N :=
+  let q := n / d in
+  let r := n mod d in
+  if (d <? 2 * r) || ((2 * r =? d) && N.odd q) then q + 1 else q.
+
 (* Some (m, e): the nearest binary64 (ties to even) of num/den is m * 2^e
    with m < 2^53 (m >= 2^52 unless subnormal); None: overflow to infinity *)
 Definition f64_round (num den : N) : option (N * Z) :=
   if num =? 0 then Some (0, 0%Z) else
-  let l := (Z.of_N (N.log2 num) - Z.of_N (N.log2 den))%Z in
-  let fl := if lt_scaled num den l then (l - 1)%Z else l in
-  let e := Z.max (fl - 52) (-1074) in
-  let '(n', d') := if (0 <=? e)%Z then (num, den * pow2 (Z.to_N e))
-                   else (num * pow2 (Z.to_N (- e)), den) in
-  let q := n' / d' in
-  let r := n' mod d' in
-  let m := if (d' <? 2 * r) || ((2 * r =? d') && N.odd q) then q + 1 else q in
-  let '(m1, e1) := if m =? pow2 53 then (pow2 52, (e + 1)%Z) else (m, e) in
-  if (971 <? e1)%Z then None else Some (m1, e1).
+  let e := f64_exp num den in
+  let nd := f64_scaled num den e in
+  let m := round_half_even (fst nd) (snd nd) in
+  let me := if m =? pow2 53 then (pow2 52, (e + 1)%Z) else (m, e) in
+  if (971 <? snd me)%Z then None else Some me.
 
 (* the integer m * 2^e if it is one *)
 Definition f64_int (m : N) (e : Z) : option N :=
@@ -369,42 +462,49 @@ Fixpoint span_digits (s : str) : str * str :=
   | [] => ([], [])
   end.
 
+Definition is_nil {A : Type} (l : list A) : bool := match l with [] => true | _ => false end.
+
+(* no leading zero, at least one digit *)
+Definition lead_ok (ip : str) : bool :=
+  match ip with
+  | [] => false
+  | d0 :: ds => negb ((d0 =? 48) && negb (is_nil ds))
+  end.
+
+(* optional exponent part: Some exponent, None = malformed *)
+Definition split_exp (s3 : str) : option Z :=
+  match s3 with
+  | [] => Some 0%Z
+  | c :: r =>
+      if (c =? 101) || (c =? 69) then
+        let eneg := match r with c' :: _ => c' =? 45 | [] => false end in
+        let r1 := match r with c' :: r' => if (c' =? 45) || (c' =? 43) then r' else r | [] => [] end in
+        let '(ep, rest) := span_digits r1 in
+        if negb (is_nil ep) && is_nil rest then
+          let ev := Z.of_N (digits_val 0 ep) in Some (if eneg then (- ev)%Z else ev)
+        else None
+      else None
+  end.
+
 (* RFC 8259 number: [-] int [frac] [exp]; returns (neg, int digits, frac digits, exponent) *)
 Definition split_number (s : str) : option (bool * str * str * Z) :=
-  let '(neg, s1) := match s with 45 :: r => (true, r) | _ => (false, s) end in
+  let neg := match s with c :: _ => c =? 45 | [] => false end in
+  let s1 := if neg then tl s else s in
   let '(ip, s2) := span_digits s1 in
-  match ip with
-  | [] => None
-  | d0 :: ds =>
-      if (d0 =? 48) && negb (match ds with [] => true | _ => false end) then None else
-      let fr := match s2 with
-                | 46 :: r => let '(fp, s3) := span_digits r in
-                             match fp with [] => None | _ => Some (fp, s3) end
-                | _ => Some ([], s2)
-                end in
-      match fr with
+  if lead_ok ip then
+    let '(fp, s3, fok) :=
+      match s2 with
+      | c :: r => if c =? 46 then let '(fp, s3) := span_digits r in (fp, s3, negb (is_nil fp))
+                  else ([], s2, true)
+      | [] => ([], [], true)
+      end in
+    if fok then
+      match split_exp s3 with
+      | Some ex => Some (neg, ip, fp, ex)
       | None => None
-      | Some (fp, s3) =>
-          match s3 with
-          | [] => Some (neg, ip, fp, 0%Z)
-          | c :: r =>
-              if (c =? 101) || (c =? 69) then
-                let '(eneg, r1) := match r with
-                                   | 45 :: r' => (true, r')
-                                   | 43 :: r' => (false, r')
-                                   | _ => (false, r)
-                                   end in
-                let '(ep, rest) := span_digits r1 in
-                match ep, rest with
-                | _ :: _, [] =>
-                    let ev := Z.of_N (digits_val 0 ep) in
-                    Some (neg, ip, fp, if eneg then (- ev)%Z else ev)
-                | _, _ => None
-                end
-              else None
-          end
       end
-  end.
+    else None
+  else None.
 
 Definition pow10 (k : N) : N := 10 ^ k.
 
@@ -685,6 +785,17 @@ Fixpoint int64_domain (v : jvalue) : bool :=
   | JArr l => forallb int64_domain l
   | JObj m => forallb (fun kv => int64_domain (snd kv)) m
   end.
+
+(* every float token of the value satisfies P *)
+Fixpoint floats_ok (P : str -> Prop) (v : jvalue) : Prop :=
+  match v with
+  | JFloat t => P t
+  | JArr l => fold_right (fun x a => floats_ok P x /\ a) True l
+  | JObj m => fold_right (fun kv a => match kv with (_, x) => floats_ok P x /\ a end) True m
+  | _ => True
+  end.
+
+Definition is_scalar (n : node) : bool := match n with NScalar _ _ => true | _ => false end.
 
 (* what the reader returns for an arbitrary float-free value: strings sanitised *)
 Fixpoint sanitize_value (v : jvalue) : jvalue :=
